@@ -84,7 +84,7 @@ theorem C10_readback (hH : CodecLaws encH decH) (hR : CodecLaws enc dec) (h : Hd
   refine ⟨framesOf h rs, writeAll_eq h rs, ?_⟩
   cases rs with
   | nil => exact absurd rfl hne
-  | cons r rs => exact readAll_framesOf hH hR h r rs
+  | cons r rs => exact readAll_framesOf hH hR h r rs trivial (fun _ _ => trivial)
 
 /-- the case the property excludes: no record written leaves a zero-byte file, and opening it for
     reading raises `EOFError` -/
@@ -106,62 +106,119 @@ theorem C10_fit_then_read (hH : CodecLaws encH decH) (hR : CodecLaws enc dec)
   · rw [C10_records, hp]; rfl
   · cases hr : c.records ss with
     | nil => exact absurd hr hne
-    | cons r rs => exact readAll_framesOf hH hR c.hdr r rs
+    | cons r rs => exact readAll_framesOf hH hR c.hdr r rs trivial (fun _ _ => trivial)
 
 end records
 
-section histories
-variable {Rec Sel Thr V : Type}
+/-! ### the repo's own `__getstate__` / `__setstate__` -/
+section states
+variable {F M Fl B : Type}
 
-/-- **C10 (no mutation).**  With the iterator as repaired (in-memory results are yielded as shallow
-    copies), after EVERY sequence of post-processing calls, on every input form (including calls that
-    raise), every reference of the caller leads to the value it led to before. -/
-theorem C10_no_mutation (S : Sem Rec Sel Thr V) (calls : List (Op Sel Thr × Input Rec)) (h0 : Heap Rec) :
-    (∀ r, r < freshRef h0 → lookupRef r (run S .copy h0 calls).1 = lookupRef r h0) ∧
-    (∀ r v, lookupRef r h0 = some v → lookupRef r (run S .copy h0 calls).1 = some v) := by
-  have e := run_copy_ext S calls h0
-  refine ⟨e.2, fun r v hv => ?_⟩
-  rw [e.2 r (lookup_lt_fresh h0 r v hv), hv]
+/-- **C10 (state round trip).**  `FitInfo.__setstate__(FitInfo.__getstate__(x))` restores the seven
+    named fields (the `Source` inside goes through its own six-field state and its validating
+    setters) and a NEW empty `meta` (`m0`); `FitInfoFile.__iter__` then re-attaches the header, so a
+    record whose `meta` is the header comes back as it was. -/
+theorem C10_state_roundtrip (x : FitInfo F M) (m0 : M) (hs : x.core.source.WF) :
+    FitInfo.setstate m0 x.getstate = .ok ⟨x.core, m0⟩ ∧
+    (FitInfo.setstate m0 x.getstate).map (FitInfo.attach x.fmeta) = .ok x := by
+  simp [FitInfo.setstate, FitInfo.getstate, fitcore_state_roundtrip x.core hs, Except.map, FitInfo.attach]
+
+/-- **C10 (state round trip, Source).**  Six fields; the setters accept what a `Source` can hold. -/
+theorem C10_state_roundtrip_source (s : Source F) (h : s.WF) : Source.setstate s.getstate = .ok s :=
+  source_state_roundtrip s h
+
+/-- **C10 (state round trip, Extinction and header).**  `wav`, `chi` with their units; the header is
+    `model_dir`, `filters` and the state of the law. -/
+theorem C10_state_roundtrip_extinction (isLen isApm : String → Bool) (e : Extinction F) (h : e.WF isLen isApm)
+    (m : Meta F Fl) (hm : m.law.WF isLen isApm) :
+    Extinction.setstate isLen isApm e.getstate = .ok e ∧ Meta.setstate isLen isApm m.getstate = .ok m :=
+  ⟨extinction_state_roundtrip isLen isApm e h, meta_state_roundtrip isLen isApm m hm⟩
+
+/-- **C10 (read-back through the states).**  With pickle reduced to a byte codec for STATES
+    (dictionaries of arrays, strings, numbers) — the only thing still assumed — writing records
+    (`FitInfo` without `meta`) under a header and reading the bytes back returns header and records. -/
+theorem C10_readback_state [DecidableEq (Meta F Fl)] (isLen isApm : String → Bool)
+    {encS : List (String × PV F) → List B} {decS : List B → Dec (List (String × PV F)) B}
+    {encHS : String × Fl × List (String × PV0 F) → List B}
+    {decHS : List B → Dec (String × Fl × List (String × PV0 F)) B}
+    (hS : CodecLaws encS decS) (hHS : CodecLaws encHS decHS)
+    (h : Meta F Fl) (hh : h.law.WF isLen isApm) (rs : List (FitCore F)) (hne : rs ≠ [])
+    (hrs : ∀ r ∈ rs, r.source.WF) :
+    ∃ fs, writeAll h rs = .ok fs ∧
+      readAll (decVia (Meta.setstate isLen isApm) decHS) (decVia FitCore.setstate decS)
+        (serialize (encVia Meta.getstate encHS) (encVia FitCore.getstate encS) fs) = .ok (h, rs) := by
+  refine ⟨framesOf h rs, writeAll_eq h rs, ?_⟩
+  have cH := codec_via (P := fun m : Meta F Fl => m.law.WF isLen isApm) hHS
+    (fun m hm => meta_state_roundtrip isLen isApm m hm)
+  have cR := codec_via (P := fun r : FitCore F => r.source.WF) hS (fun r hr => fitcore_state_roundtrip r hr)
+  cases rs with
+  | nil => exact absurd rfl hne
+  | cons r rs => exact readAll_framesOf cH cR h r rs hh hrs
+
+end states
+
+section histories
+variable {X Sel Thr V Pk : Type}
+
+/-- **C10 (no mutation).**  With the iterator as repaired (in-memory results are yielded as SHALLOW
+    copies: fresh objects whose attributes point at the caller's own arrays), after EVERY sequence of
+    calls of the repo's post-processing ops, on every input form (including calls that raise): every
+    reference of the caller leads to the same object, every array / `Source` / `meta` cell the caller
+    can reach holds what it held, and so every result has the value it had. -/
+theorem C10_no_mutation (S : Sem X Sel Thr V Pk) (calls : List (Op Sel Thr Pk × Input X)) (st0 : Store X)
+    (hc : ∀ c ∈ calls, c.1.noInplace = true) :
+    (∀ r, r < freshRef st0.objs → lookupRef r (run S .copy st0 calls).1.objs = lookupRef r st0.objs) ∧
+    (∀ a, a < freshRef st0.cells → lookupRef a (run S .copy st0 calls).1.cells = lookupRef a st0.cells) ∧
+    (∀ r v, deref st0 r = some v → deref (run S .copy st0 calls).1 r = some v) := by
+  have e := run_copy_ext S calls st0 hc
+  exact ⟨e.1.2, e.2.2, fun r v hv => deref_ext e r v hv⟩
 
 /-- **C10 (outputs depend on the records only).**  The output of every call of a history is the
     output that call has on the records its input denoted at the start — independent of the calls
     made before and of the form of the input. -/
-theorem C10_outputs_spec (S : Sem Rec Sel Thr V) (calls : List (Op Sel Thr × Input Rec)) (h0 : Heap Rec)
-    (hv : ∀ c ∈ calls, ∃ recs, denote h0 c.2 = some recs) :
-    (run S .copy h0 calls).2 =
-      calls.map (fun c => match denote h0 c.2 with
+theorem C10_outputs_spec (S : Sem X Sel Thr V Pk) (calls : List (Op Sel Thr Pk × Input X)) (st0 : Store X)
+    (hc : ∀ c ∈ calls, c.1.noInplace = true)
+    (hv : ∀ c ∈ calls, ∃ recs, denote st0 c.2 = some recs) :
+    (run S .copy st0 calls).2 =
+      calls.map (fun c => match denote st0 c.2 with
                           | none => .error .badRef
                           | some recs => specOut S c.1 recs) := by
-  rw [run_copy_out S h0 calls h0 (Ext.refl h0) hv _ rfl, List.map_map]
+  rw [run_copy_out S st0 calls st0 (Ext2.refl st0) hc hv _ rfl, List.map_map]
   rfl
 
-/-- **C10 (form independence).**  For every op sequence, passing the results as a file, as one
-    object or as a list of objects gives the same outputs whenever the inputs hold equal records. -/
-theorem C10_form_independent (S : Sem Rec Sel Thr V) (ops : List (Op Sel Thr)) (h0 : Heap Rec)
-    (inA inB : Input Rec) (recs : List Rec)
-    (hA : denote h0 inA = some recs) (hB : denote h0 inB = some recs) :
-    (run S .copy h0 (ops.map (fun op => (op, inA)))).2 = (run S .copy h0 (ops.map (fun op => (op, inB)))).2 ∧
-    (run S .copy h0 (ops.map (fun op => (op, inA)))).2 = ops.map (fun op => specOut S op recs) := by
-  have key : ∀ inp : Input Rec, denote h0 inp = some recs →
-      (run S .copy h0 (ops.map (fun op => (op, inp)))).2 = ops.map (fun op => specOut S op recs) := by
+/-- **C10 (form independence).**  For every sequence of the repo's ops, passing the results as a
+    file, as one object or as a list of objects gives the same outputs whenever the inputs hold equal
+    records. -/
+theorem C10_form_independent (S : Sem X Sel Thr V Pk) (ops : List (Op Sel Thr Pk)) (st0 : Store X)
+    (hc : ∀ op ∈ ops, op.noInplace = true)
+    (inA inB : Input X) (recs : List (RecV X))
+    (hA : denote st0 inA = some recs) (hB : denote st0 inB = some recs) :
+    (run S .copy st0 (ops.map (fun op => (op, inA)))).2 = (run S .copy st0 (ops.map (fun op => (op, inB)))).2 ∧
+    (run S .copy st0 (ops.map (fun op => (op, inA)))).2 = ops.map (fun op => specOut S op recs) := by
+  have key : ∀ inp : Input X, denote st0 inp = some recs →
+      (run S .copy st0 (ops.map (fun op => (op, inp)))).2 = ops.map (fun op => specOut S op recs) := by
     intro inp hi
-    rw [C10_outputs_spec S _ h0 (by
-      intro c hc
-      obtain ⟨op, _, rfl⟩ := List.mem_map.mp hc
+    rw [C10_outputs_spec S _ st0 (by
+      intro c hc'
+      obtain ⟨op, hop, rfl⟩ := List.mem_map.mp hc'
+      exact hc op hop) (by
+      intro c hc'
+      obtain ⟨op, _, rfl⟩ := List.mem_map.mp hc'
       exact ⟨recs, hi⟩)]
     simp [List.map_map, Function.comp_def, hi]
   exact ⟨by rw [key inA hA, key inB hB], key inA hA⟩
 
-/-- the three forms hold equal records: a file with `recs`, a list of references to objects with
-    these values, and (for a single record) the object itself -/
-theorem C10_forms_denote (h0 : Heap Rec) (r : Nat) (v : Rec) (hr : lookupRef r h0 = some v) :
-    denote h0 (.file [v]) = some [v] ∧ denote h0 (.obj r) = some [v] ∧ denote h0 (.list [r]) = some [v] := by
+/-- the three forms hold equal records: a file with the record, a list with a reference to an object
+    of that value, and the object itself -/
+theorem C10_forms_denote (st0 : Store X) (r : Nat) (v : RecV X) (hr : deref st0 r = some v) :
+    denote st0 (.file [v]) = some [v] ∧ denote st0 (.obj r) = some [v] ∧ denote st0 (.list [r]) = some [v] := by
   simp [denote, Input.items, itemsVals, itemVal, hr]
 
 end histories
 
 /-! ## Non-vacuity -/
 section examples
+set_option synthInstance.maxSize 1024
 
 /-- a toy codec that satisfies the laws: two-byte records, one-byte headers -/
 def exEnc (p : Nat × Nat) : List Nat := [p.1, p.2]
@@ -174,8 +231,8 @@ def exDecH : List Nat → Dec Nat Nat
   | [] => .eof
   | a :: rest => .ok a rest
 
-example : CodecLaws exEnc exDec := ⟨fun _ _ => rfl, rfl⟩
-example : CodecLaws exEncH exDecH := ⟨fun _ _ => rfl, rfl⟩
+example : CodecLaws exEnc exDec := ⟨fun _ _ _ => rfl, rfl⟩
+example : CodecLaws exEncH exDecH := ⟨fun _ _ _ => rfl, rfl⟩
 
 /-- a data file of 6 lines: `(name, n_data)`; `none` is a blank line -/
 def exCfg (nMin : Int) (conv : Bool) : FitCfg (Option (Nat × Nat)) (Nat × Nat) Nat (Nat × Nat) where
@@ -204,56 +261,107 @@ example : (exLines.take 4).map (exCfg 3 false).parse = [(0, 3), (1, 1), (2, 4), 
 example : parsePrefix (exCfg 3 false).parse exLines = .ok [(0, 3), (1, 1), (2, 4), (3, 2)] ∧
     (exCfg 3 false).records [(0, 3), (1, 1), (2, 4), (3, 2)] ≠ [] := by decide
 
-/-- two caller objects with 3 and 2 rows -/
-def exHeap : Heap (CRec Int) := [(0, ⟨0, [0, 1, 2], 5⟩), (1, ⟨1, [0, 1], 40⟩)]
+-- states: a well-formed source / law (hypotheses of the state theorems), and a setter that rejects
+def c10ExSource : Source Int := ⟨"s1", 10, -20, [1, 4, 9, 0], [5, 6, 7, 8], [1, 1, 2, 2]⟩
+example : c10ExSource.WF := by decide
+example : ¬ (⟨"bad", 0, 0, [1, 7], [5, 6], [1, 1]⟩ : Source Int).WF := by decide
+def c10ExIsLen (u : String) : Bool := u == "micron"
+def c10ExIsApm (u : String) : Bool := u == "cm2 / g"
+def c10ExLaw : Extinction Int := ⟨⟨[1, 2, 3], "micron"⟩, ⟨[30, 20, 10], "cm2 / g"⟩⟩
+example : c10ExLaw.WF c10ExIsLen c10ExIsApm := by decide
 
-def exSem : Sem (CRec Int) (Nat → Nat) Int (Nat × List Nat) := csem
+/-- two caller objects with 3 and 2 rows; the cells 0..7 are their arrays and sub-objects -/
+def c10ExRecs : List (CRec Int) := [⟨0, [0, 1, 2], 5, 1⟩, ⟨1, [0, 1], 40, 20⟩]
 
-def exCalls (inp : Input (CRec Int)) : List (Op (Nat → Nat) Int × Input (CRec Int)) :=
-  [(.writeParameters (fun _ => 1), inp), (.extract (fun _ => 2), inp), (.filterOutput 10, inp)]
+def c10ExStore : Store (CX Int) :=
+  { objs := [(0, [⟨0, some 3⟩, ⟨1, none⟩, ⟨2, none⟩, ⟨3, none⟩]), (1, [⟨4, some 2⟩, ⟨5, none⟩, ⟨6, none⟩, ⟨7, none⟩])],
+    cells := [(0, [.row 0, .row 1, .row 2]), (1, [.src 0]), (2, [.best 5]), (3, [.bestpd 1]),
+              (4, [.row 0, .row 1]), (5, [.src 1]), (6, [.best 40]), (7, [.bestpd 20])] }
+
+def exSem : Sem (CX Int) (Nat → Nat) (Option Int × Option Int) (Option (Nat × List Nat)) Nat := csem
+
+abbrev C10ExOp := Op (Nat → Nat) (Option Int × Option Int) Nat
+
+def exCalls (inp : Input (CX Int)) : List (C10ExOp × Input (CX Int)) :=
+  [(.writeParameters (fun _ => 1), inp), (.plotParams2d (fun _ => 2), inp), (.filterOutput (some 10, none), inp)]
+
+example : deref c10ExStore 0 = some (c10ExRecs[0]).toV ∧ deref c10ExStore 1 = some (c10ExRecs[1]).toV := by decide
 
 -- the history cuts to 1 row, then (from the uncut object again) to 2 rows, then splits
-example : (run exSem .copy exHeap (exCalls (.list [0, 1]))).2 =
-    [.ok (.printed [(0, [0]), (1, [0])]), .ok (.printed [(0, [0, 1]), (1, [0, 1])]),
-     .ok (.split [⟨0, [0, 1, 2], 5⟩] [⟨1, [0, 1], 40⟩])] := by decide
+example : (run exSem .copy c10ExStore (exCalls (.list [0, 1]))).2 =
+    [.ok (.printed [some (0, [0]), some (1, [0])]), .ok (.printed [some (0, [0, 1]), some (1, [0, 1])]),
+     .ok (.split [(c10ExRecs[0]).toV] [(c10ExRecs[1]).toV])] := by decide
 -- file form, same records, same outputs
-example : (run exSem .copy exHeap (exCalls (.file [⟨0, [0, 1, 2], 5⟩, ⟨1, [0, 1], 40⟩]))).2 =
-    (run exSem .copy exHeap (exCalls (.list [0, 1]))).2 := by decide
--- the caller's objects are as before
-example : lookupRef 0 (run exSem .copy exHeap (exCalls (.list [0, 1]))).1 = some ⟨0, [0, 1, 2], 5⟩ ∧
-    lookupRef 1 (run exSem .copy exHeap (exCalls (.list [0, 1]))).1 = some ⟨1, [0, 1], 40⟩ := by decide
+example : (run exSem .copy c10ExStore (exCalls (.file (c10ExRecs.map CRec.toV)))).2 =
+    (run exSem .copy c10ExStore (exCalls (.list [0, 1]))).2 := by decide
+-- the caller's objects AND arrays are as before
+example : (∀ r ∈ [0, 1], lookupRef r (run exSem .copy c10ExStore (exCalls (.list [0, 1]))).1.objs = lookupRef r c10ExStore.objs) ∧
+    (∀ a ∈ List.range 8, lookupRef a (run exSem .copy c10ExStore (exCalls (.list [0, 1]))).1.cells = lookupRef a c10ExStore.cells) := by
+  decide
+-- the shallow copy really shares: the object yielded for caller object 0 points at the caller's cells 0..3
+example : (yield1 .copy c10ExStore (.mem 0)).map (fun p => lookupRef p.2 p.1.objs) =
+    .ok (some [⟨0, some 3⟩, ⟨1, none⟩, ⟨2, none⟩, ⟨3, none⟩]) := by decide
 -- hypotheses of `C10_form_independent` are met
-example : denote exHeap (.list [0, 1]) = some [⟨0, [0, 1, 2], 5⟩, ⟨1, [0, 1], 40⟩] ∧
-    denote exHeap (.file [⟨0, [0, 1, 2], 5⟩, ⟨1, [0, 1], 40⟩]) = some [⟨0, [0, 1, 2], 5⟩, ⟨1, [0, 1], 40⟩] ∧
-    denote exHeap (.obj 0) = some [⟨0, [0, 1, 2], 5⟩] := by decide
+example : denote c10ExStore (.list [0, 1]) = some (c10ExRecs.map CRec.toV) ∧
+    denote c10ExStore (.file (c10ExRecs.map CRec.toV)) = some (c10ExRecs.map CRec.toV) ∧
+    denote c10ExStore (.obj 0) = some [(c10ExRecs[0]).toV] := by decide
 
 end examples
 
-/-! ## Negative control: the iterator before the repair
+/-! ## Negative controls
 
-With `Iter.alias` (`yield info`: the consumer's `keep` acts on the caller's own object) both
-history theorems are false, so they do say something about aliasing. -/
+(1) the iterator before the repair, `Iter.alias` (`yield info`: the consumer's `keep` rebinds the
+attributes of the caller's own object); (2) an op that, after `keep`, writes IN PLACE through an
+attribute of the yielded shallow copy (`info.model_fluxes += …`, which no consumer of the repo does):
+the write lands in the cell the caller's object points to.  With either, the history theorems are
+false — so they do say something about aliasing and about sharing. -/
 section negative
+set_option synthInstance.maxSize 1024
 
-/-- **C10 (negative control, mutation).**  One call — `write_parameters(info, select_format=('N', 1))`
+/-- **C10 (negative control, aliasing).**  One call — `write_parameters(info, select_format=('N', 1))`
     on an object with three fits — leaves the caller's object with one fit. -/
 theorem C10_alias_mutates :
-    ¬ ∀ (calls : List (Op (Nat → Nat) Int × Input (CRec Int))) (h0 : Heap (CRec Int)) (r : Nat),
-        r < freshRef h0 → lookupRef r (run exSem .alias h0 calls).1 = lookupRef r h0 := by
+    ¬ ∀ (calls : List (C10ExOp × Input (CX Int))) (st0 : Store (CX Int)) (r : Nat) (v : RecV (CX Int)),
+        (∀ c ∈ calls, c.1.noInplace = true) →
+        deref st0 r = some v → deref (run exSem .alias st0 calls).1 r = some v := by
   intro h
-  have := h [(.writeParameters (fun _ => 1), .obj 0)] exHeap 0 (by decide)
+  have := h [(.writeParameters (fun _ => 1), .obj 0)] c10ExStore 0 (c10ExRecs[0]).toV (by decide) (by decide)
   revert this
   decide
 
-/-- **C10 (negative control, form dependence).**  `('N', 1)` then `('N', 2)`: from a file the second
-    call prints two rows, from the object only one is left. -/
+/-- **C10 (negative control, form dependence under aliasing).**  `('N', 1)` then `('N', 2)`: from a
+    file the second call prints two rows, from the object only one is left. -/
 theorem C10_alias_form_dependent :
-    ¬ ∀ (ops : List (Op (Nat → Nat) Int)) (h0 : Heap (CRec Int)) (inA inB : Input (CRec Int)) (recs : List (CRec Int)),
-        denote h0 inA = some recs → denote h0 inB = some recs →
-        (run exSem .alias h0 (ops.map (fun op => (op, inA)))).2 = (run exSem .alias h0 (ops.map (fun op => (op, inB)))).2 := by
+    ¬ ∀ (ops : List C10ExOp) (st0 : Store (CX Int)) (inA inB : Input (CX Int)) (recs : List (RecV (CX Int))),
+        (∀ op ∈ ops, op.noInplace = true) →
+        denote st0 inA = some recs → denote st0 inB = some recs →
+        (run exSem .alias st0 (ops.map (fun op => (op, inA)))).2 = (run exSem .alias st0 (ops.map (fun op => (op, inB)))).2 := by
   intro h
-  have := h [.writeParameters (fun _ => 1), .writeParameters (fun _ => 2)] exHeap
-    (.file [⟨0, [0, 1, 2], 5⟩]) (.obj 0) [⟨0, [0, 1, 2], 5⟩] (by decide) (by decide)
+  have := h [.writeParameters (fun _ => 1), .writeParameters (fun _ => 2)] c10ExStore
+    (.file [(c10ExRecs[0]).toV]) (.obj 0) [(c10ExRecs[0]).toV] (by decide) (by decide) (by decide)
+  revert this
+  decide
+
+/-- **C10 (negative control, in-place write through the shallow copy).**  In COPY mode, one call that
+    cuts to 2 fits and then writes in place through attribute 0 changes the caller's array (cell 0):
+    without the hypothesis `noInplace`, `C10_no_mutation` is false. -/
+theorem C10_inplace_mutates :
+    ¬ ∀ (calls : List (C10ExOp × Input (CX Int))) (st0 : Store (CX Int)) (a : Nat),
+        a < freshRef st0.cells → lookupRef a (run exSem .copy st0 calls).1.cells = lookupRef a st0.cells := by
+  intro h
+  have := h [(.inplace (fun _ => 2) 0 10, .obj 0)] c10ExStore 0 (by decide)
+  revert this
+  decide
+
+/-- **C10 (negative control, form dependence after an in-place write).**  The in-place op, then
+    `filter_output`: the records written differ between the file form and the object form. -/
+theorem C10_inplace_form_dependent :
+    ¬ ∀ (ops : List C10ExOp) (st0 : Store (CX Int)) (inA inB : Input (CX Int)) (recs : List (RecV (CX Int))),
+        denote st0 inA = some recs → denote st0 inB = some recs →
+        (run exSem .copy st0 (ops.map (fun op => (op, inA)))).2 = (run exSem .copy st0 (ops.map (fun op => (op, inB)))).2 := by
+  intro h
+  have := h [.inplace (fun _ => 2) 0 10, .filterOutput (some 10, none)] c10ExStore
+    (.file [(c10ExRecs[0]).toV]) (.obj 0) [(c10ExRecs[0]).toV] (by decide) (by decide)
   revert this
   decide
 
